@@ -188,6 +188,48 @@ def sim_case(rng, profile, kind, tier):
         c["thrFrom"], c["thrWin"], c["thrMinPm"] = 12000, 5000, 500
         c["mtu"] = [[rng.randrange(500, 6000), 1452]] if rng.random() < 0.5 else []
         c["queue"] = max(40000, 2 * bdp)
+    elif kind in ("clean-fast", "clean-fast-lo", "clean-fast-mid", "clean-fast-hi"):
+        # the high-capacity part of the capacity dimension: loss-free path of 200 Mbit/s .. 2 Gbit/s, short round trip, never
+        # app-limited.  The pacer wakes at most once per MinPacingDelay (1 ms), so the rate is sustained only if every wake-up may
+        # release a burst proportional to the bandwidth (maxBurstSize's first term; 10 datagrams per ms are ~100-116 Mbit/s), the
+        # window holds 10^3..10^4 datagrams and the sampler's queue / the filters see 10^5 packets per second.  Acks on a
+        # 0.3-2 ms grid (one event per ack would be 10^5 events per second; a receiver at these rates coalesces anyway).
+        # Same verdict as `clean`: every 5 s window from 12 s on delivers >= 50% of capacity; 22.5 s simulated = two windows (17.5 s = one above 1 Gbit/s)
+        if kind == "clean-fast":
+            kind = rng.choice(["clean-fast-lo", "clean-fast-mid", "clean-fast-hi"])
+        lo, hi, grid = {"clean-fast-lo": (25, 50, [1000, 2000]), "clean-fast-mid": (62, 125, [750, 1000, 2000]),
+                        "clean-fast-hi": (125, 250, [300, 500, 1000])}[kind]
+        c["clean"] = True
+        c["cap"] = rng.choice([lo, hi, (lo + hi) // 2, rng.randrange(lo, hi + 1)]) * 1000000
+        c["rtt"] = rng.choice([2, 5, 10, 20])
+        # the ack grid: an arriving ack wakes the send loop as the pacer's timer does (quic-go sends after handling received
+        # packets when the pacer has budget), so a burst limit of k datagrams shows as a rate ceiling of k datagrams per
+        # min(grid, MinPacingDelay); grids are chosen per band so that 10 datagrams per wake-up are below 50% of capacity
+        # (except below ~30 MB/s)
+        c["aggUs"] = rng.choice(grid)
+        c["gap"], c["nonrtx"] = rng.choice([0, 2]), rng.choice([0, 2])
+        c["dur"] = 22500 if c["cap"] <= 125000000 else 17500     # (above 1 Gbit/s one window: 3 x 10^6 packets)
+        c["thrFrom"], c["thrWin"], c["thrMinPm"] = 12000, 5000, 500
+        c["mtu"] = [[rng.randrange(500, 6000), 1452]] if rng.random() < 0.5 else []
+        bdp = c["cap"] * c["rtt"] // 1000
+        c["queue"] = max(40000, 2 * bdp)
+        c["dumpMax"], c["traceMax"], c["replayMax"] = 24, 30, 80
+    elif kind == "clean-agg":
+        # ack aggregation on a loss-free path of fixed capacity: acks released every 2..10 ms (Wi-Fi / GRO / a busy receiver) at
+        # 50..200 Mbit/s, so every ack event newly acknowledges 10..170 packets - the bandwidth sampler must produce a sample for
+        # EVERY packet of the event (entries are dropped only after they were sampled), the ack-height tracker absorbs the bursts.
+        # Same verdict as `clean`; 27.5 s simulated = three windows, through the first min_rtt expiry
+        c["clean"] = True
+        c["cap"] = rng.choice([6250000, 8000000, 12500000, 18750000, 25000000, rng.randrange(6250000, 25000001)])
+        c["rtt"] = rng.choice([10, 20, 40])
+        c["agg"] = rng.choice([2, 3, 4, 5, 8, 10])
+        c["gap"], c["nonrtx"] = rng.choice([0, 5]), rng.choice([0, 10])
+        c["dur"] = 27500
+        c["thrFrom"], c["thrWin"], c["thrMinPm"] = 12000, 5000, 500
+        c["mtu"] = [[rng.randrange(500, 6000), 1452]] if rng.random() < 0.5 else []
+        bdp = c["cap"] * (c["rtt"] + c["agg"]) // 1000
+        c["queue"] = max(40000, 2 * bdp)
+        c["dumpMax"], c["traceMax"], c["replayMax"] = 40, 40, 100
     elif kind == "fast-idle":
         # very fast path (1..10 GB/s, 1-2 ms), a short ramp to full rate, then application idle gaps of 5..30 s with short sending
         # phases in between: pacer rate x time since the last packet is between 0.5 and 32 times 2^63 at the resumes (the int64 product
@@ -296,6 +338,12 @@ def gen(rng, tier):
     for prof in PROFILES:
         cases.append(sim_case(rng, prof, "clean", tier))
         cases.append(sim_case(rng, prof, "lossy", tier))
+    # the throughput clause over the capacity dimension and under ack aggregation, every profile: one high-capacity run per
+    # profile (one per capacity band, bands permuted over the profiles) and one run with acks released in batches
+    for prof, kind in zip(rng.sample(PROFILES, 3), ["clean-fast-lo", "clean-fast-mid", "clean-fast-hi"]):
+        cases.append(sim_case(rng, prof, kind, tier))
+    for prof in PROFILES:
+        cases.append(sim_case(rng, prof, "clean-agg", tier))
     cases.append(sim_case(rng, rng.choice(PROFILES), "probertt", tier))
     cases.append(sim_case(rng, rng.choice(PROFILES), "applimited", tier))
     # the two clamps of the property where they bind: one slow path per capacity band (profiles permuted), small
@@ -325,6 +373,10 @@ def gen(rng, tier):
             cases.append(sim_case(rng, rng.choice(PROFILES), rng.choice(["slow-lo", "slow-lo", "slow-mid", "slow-hi", "smallmax", "smallmax-bdp"]), tier))
         for _ in range(3):
             cases.append(sim_case(rng, rng.choice(PROFILES), "fat", tier))
+        for _ in range(9):
+            cases.append(sim_case(rng, rng.choice(PROFILES), "clean-fast", tier))
+        for _ in range(18):
+            cases.append(sim_case(rng, rng.choice(PROFILES), "clean-agg", tier))
         for _ in range(12):
             cases.append(sim_case(rng, rng.choice(PROFILES), "fast-idle", tier))
     for _ in range(24 * scale):
@@ -475,7 +527,9 @@ RULE = ("seeded generator. Layers 2-3: a discrete-event bottleneck simulator ins
         "<= lastSent-leastUnacked+1, CanSend below 4*mds, the pacer has budget for a datagram at the time TimeUntilSend announces (at once when that time is zero or past), "
         "PROBE_RTT is not re-entered within minRttExpiry (10 s) of leaving it and at most twice in any 10 s (theorem C12_probe_rtt_spacing), generated trace is quic_consistent; "
         "the loss-free fixed-capacity runs (one per profile, 0.6..2.5 MB/s x 20..150 ms, 32 s simulated: through the first min_rtt expiry after 10 s, its PROBE_RTT episode and 20 s beyond) "
-        "must deliver >= 50% of capacity in EVERY 5 s window from 12 s on; very fast paths with application idle gaps (kind fast-idle, one per profile: 1..10 GB/s x 1-2 ms, a 15..72 ms ramp, "
+        "must deliver >= 50% of capacity in EVERY 5 s window from 12 s on; the same verdict over the capacity dimension (kind clean-fast-lo/-mid/-hi, one per profile, bands permuted over the profiles: "
+        "200 Mbit/s .. 2 Gbit/s x 2..20 ms, acks on a 0.3..2 ms grid chosen per band so that a wake-up - pacer timer or arriving ack - limited to 10 datagrams stays below half of capacity; 17.5..22.5 s simulated) "
+        "and under ack aggregation (kind clean-agg, every profile: 50..200 Mbit/s x 10..40 ms, acks released every 2..10 ms, i.e. 10..170 packets newly acknowledged per ack event; 27.5 s simulated); very fast paths with application idle gaps (kind fast-idle, one per profile: 1..10 GB/s x 1-2 ms, a 15..72 ms ramp, "
         "then 3-5 idle gaps of 5..30 s with millisecond sending phases between them, so that pacer rate x time since the last packet is 0.5..100 x 2^63 at the resumes - the int64 product of "
         "Pacer.Budget not wrapped, wrapped negative, wrapped back to non-negative; acks on a 100-250 us grid); the long-run clauses (PROBE_RTT spacing, throughput windows) do not end the run, "
         "the replay lists the first violation of each; a sample of events "
@@ -537,7 +591,9 @@ LEVEL_TEXT = ("Machine-checked Coq theorems over a hand-written Gallina model of
               "Long-run clauses: at the level of whole OnCongestionEventEx calls the min-RTT stamp only moves to the time of the event, PROBE_RTT is entered only with a stamp older than "
               "minRttExpiry and entering / leaving refresh it (C12_probe_rtt_spacing: PROBE_RTT cannot be re-entered within 10 s of leaving it); the pacer called late (C12_pacer_late_calls): "
               "no shrinking budget while bandwidth x elapsed < 2^63, a full burst when the product wrapped negative; clamping a negative budget to zero is refuted "
-              "(C12_pacer_negative_budget_must_not_clamp_to_zero). Throughput on a loss-free path: no theorem; harness verdict on the simulator (every 5 s window >= 50% of capacity).")
+              "(C12_pacer_negative_budget_must_not_clamp_to_zero); the pacer does not cap the rate below the bandwidth it is given (C12_pacer_burst_sustains_rate: the burst cap is at least 4 x "
+              "what the bandwidth delivers per MinPacingDelay, and a wake-up one MinPacingDelay after the last packet has at least that much budget). "
+              "Throughput on a loss-free path: no theorem; harness verdict on the simulator (every 5 s window >= 50% of capacity; 0.6 MB/s .. 250 MB/s, with and without ack aggregation).")
 LEVEL_NOTE = ("Trusted: Coq kernel + vm_compute; hand-written model (tie = sampled differential testing + regenerated ParamsC12); python/Go glue; the "
               "simulator's rendering of quic-go's call discipline. No axioms beyond Coq's float / int63 primitives in the layer 3 theorems. "
               "Not proved: numeric properties of the float results (bandwidth estimate accuracy, gain x BDP bounds), recovery-state range, "
@@ -617,8 +673,8 @@ def run(ctx):
                 replay_missing[0], outs[replay_missing[0]].get("replayOver", "no replay output"))
         ctx.say("whole-trace replays: %d histories, %d calls replayed by the full model" % (n_replays, n_replay_events))
     hist, nontriv = {}, set()
-    supporting = {"label": "no theorem covers throughput/convergence; loss-free, never app-limited simulated bottleneck of fixed capacity, 32 s "
-                           "per profile; ratio = bytes delivered after the first 2 s / (capacity * time); window_ratios = the same per 5 s "
+    supporting = {"label": "no theorem covers throughput/convergence; loss-free, never app-limited simulated bottleneck of fixed capacity, 17.5..32 s "
+                           "per profile and class (clean: 0.6..2.5 MB/s; clean-fast-*: 25..250 MB/s; clean-agg: 6..25 MB/s with acks released every 2..10 ms); ratio = bytes delivered after the first 2 s / (capacity * time); window_ratios = the same per 5 s "
                            "window from 12 s on (after the first min_rtt expiry and its PROBE_RTT episode): each must be >= 0.5 (harness verdict)",
                   "threshold": 0.5, "runs": []}
     for c, o in zip(cases, outs):
@@ -632,6 +688,7 @@ def run(ctx):
         if c["k"] == "sim" and c["sim"].get("clean") and o.get("stats"):
             r = o["stats"]["throughputRatio"]
             supporting["runs"].append({"profile": c["sim"]["profile"], "capacity_Bps": c["sim"]["cap"], "rtt_ms": c["sim"]["rtt"],
+                                       "kind": c["sim"]["kind"], "ack_grid_us": c["sim"].get("aggUs") or 1000 * c["sim"].get("agg", 0),
                                        "duration_ms": c["sim"]["dur"], "throughput_ratio": round(r, 4),
                                        "window_ratios": o["stats"].get("windowRatios"), "probe_rtt_entries_ms": o["stats"].get("probeRttEntriesMs")})
             if r < 0.5 and o.get("ok") is not False:
